@@ -59,38 +59,62 @@ def main(tier, replay):
                 notes.append(l.strip()[:300])
     vlib.standard_coverage(chk, stats,
         "real ProjMatrixByBinUsingRayTracing / ProjMatrixByBinUsingInterpolation, ForwardProjectorByBinUsingProjMatrixByBin, "
-        "BackProjectorByBinUsingProjMatrixByBin, ProjectorByBinPairUsingProjMatrixByBin, ForwardProjectorByBinUsingRayTracing, "
+        "BackProjectorByBinUsingProjMatrixByBin, ProjectorByBinPairUsingProjMatrixByBin, ProjectorByBinPairUsingSeparateProjectors, "
+        "PresmoothingForwardProjectorByBin, PostsmoothingBackProjectorByBin, ForwardProjectorByBinUsingRayTracing, "
         "ProjMatrixElemsForOneBin, RelatedViewgrams on ProjDataInMemory, for generated geometries: cylindrical 8-16 detectors x 2-3 rings, "
         "span 1/3, view mashing, arc-corrected or not, TOF (5 bins or mashed to 1), BlocksOnCylindrical 12/16 detectors (TOF and non-TOF); "
         "images 5-9 voxels across (blocks 15/17) covering 50-100% of the field of view, 2R-1 / 2R-3 / 2R+1 planes (rows then contain planes "
-        "outside the image: z guard); 1-3 tangential LORs, random symmetry flags, cylindrical/square FOV, detector-boundary option; cache on "
-        "(per-bin branch) and off (explicit-symmetries branch). "
+        "outside the image: z guard), z origin 0 / +-1 / +2 planes, square or x/y-anisotropic voxels (cylindrical worlds); 1-3 tangential "
+        "LORs, random symmetry flags, cylindrical/square FOV, detector-boundary option; cache on (per-bin branch) and off "
+        "(explicit-symmetries branch). "
         "CORRESPONDENCE: the rows of a separate matrix object with the same settings (hex floats), the symmetry tables "
         "(is_basic / related view-segments / find_basic_bin+get_related_bins_factorised) and random small-integer images and data are sent "
         "to the Lean model, which recomputes exactly in Rat: forward projection of the whole data, sampled (subset_num,num_subsets,zero), "
         "chained subsets without zeroing, rejected subset arguments, related viewgrams over the full range / an axial sub-range / an "
         "axial+tangential sub-range (values and frame inside the viewgrams), every state of the back projector (set_up clone, "
-        "start_accumulating_in_new_target, back_project of subsets and sub-ranges, get_output, back_project(image,..)), and "
-        "ProjMatrixElemsForOneBin::forward_project/back_project called directly on random rows (planes outside the image, bins that come in "
-        "with a value, data == 0). A float answer f is accepted iff |f - exact| <= 4(n+1)2^-24 M, M = sum|terms| and n = number of terms both "
-        "computed by the model (same definitions run on absolute values / on 0-1 patterns). "
+        "start_accumulating_in_new_target, back_project of subsets and sub-ranges, get_output, back_project(image,..)), "
+        "the same projectors called with a ProjData SMALLER than the set-up geometry (fewer segments, trimmed tangential range - symmetric, "
+        "containing 0 or arbitrary -, axial ranges trimmed at either end; whole data, a subset with and without zeroing, back projection "
+        "accumulated: ops sub/rel2/fwd2/bsub2, the model runs fwdSubset/bckSubset with the geometry, layout and related-position lists of "
+        "the smaller data and the rows of the set-up geometry), pre-/post- data processors of set_input/get_output (harness-defined, exact "
+        "on small integers: image*=c, the symmetric stencil [1 2 1] along x, one that fails -> err; get_output twice; "
+        "back_project(image,..); removal of the processor), the projectors handed out by ProjectorByBinPairUsingSeparateProjectors, "
+        "(once build/fixes/C04-3 is in /repo) Presmoothing/Postsmoothing projectors as forward_project / back_project with the stencil as "
+        "processor, and ProjMatrixElemsForOneBin::forward_project/back_project called directly on random rows (planes outside the image, "
+        "bins that come in with a value, data == 0). A float answer f is accepted iff |f - exact| <= 4(n+1)2^-24 M, M = sum|terms| and "
+        "n = number of terms both computed by the model (same definitions run on absolute values / on 0-1 patterns; after a "
+        "post-processor: |processor| applied to M, to n, plus 4). "
         "ORACLE on the implementation alone: projection = matrix product (both directions); <Ax,y>=<x,A'y> within "
         "4(L+C+2)2^-24 sum|x||A||y| (L longest row, C most contributions to a voxel) for the whole data, EVERY (subset_num,num_subsets) up to "
-        "the number of views, every related-viewgram group x TOF bin, random sub-ranges; subset / sub-range projection = restriction of "
-        "the whole (bitwise); frame (untouched / zeroed, bitwise); subsets one after the other = at once (forward bitwise, back within the "
-        "bound); sums over subsets / over groups = whole; accumulation and reset of the back projector; linearity A(2x+x')=2Ax+Ax', "
-        "A'(2y+y')=2A'y+A'y', also through RelatedViewgrams arithmetic; row level: merge = sum, scaling, exact adjointness; "
-        "on-the-fly ray tracing vs matrix (1 LOR, same settings) on whole data, subsets and related viewgrams over sub-ranges with "
-        "tolerance 1e-4 max(viewgram max, 0.05 max(A|x|)), bins whose LOR end point lies within 2e-3 voxel of a voxel boundary not "
-        "compared (count in harness_counts). distinct = distinct op lines.",
+        "the number of views, every related-viewgram group x TOF bin, random sub-ranges, the smaller ProjData, and through a self-adjoint "
+        "pre-/post-processor pair (4x the bound with |P||x|); subset / sub-range / smaller-ProjData projection = restriction of "
+        "the whole (bitwise); frame (untouched / zeroed, bitwise) also for the smaller ProjData; subsets one after the other = at once "
+        "(forward bitwise, back within the bound); sums over subsets / over groups = whole; accumulation and reset of the back projector; "
+        "linearity A(2x+x')=2Ax+Ax', A'(2y+y')=2A'y+A'y', also through RelatedViewgrams arithmetic; processors: projection of the "
+        "processed image, scaling processor scales, caller's image untouched, processor applied exactly once in set_input and not at all "
+        "in back_project, get_output idempotent, failing processor throws; SeparateProjectors pair = ProjMatrixByBin pair (bitwise) and "
+        "adjoint; Presmoothing forward = projection of the smoothed image, Postsmoothing back = smoothed back projection, the two adjoint; "
+        "row level: merge = sum, scaling, exact adjointness; "
+        "on-the-fly ray tracing vs matrix (1 LOR, same settings) with restrict_to_cylindrical_FOV true AND false (the latter through the "
+        "parser), 4/6/8 and 6-20 views (multiples of 4, 4k+2; an odd number must be refused by set_up), odd/even image sizes, "
+        "2R-3/2R-1/2R+1 planes, z origin off by whole planes, anisotropic voxels, voxel z = ring spacing, span 1/3: whole data, subsets, "
+        "a smaller ProjData (vs its own whole-data projection and vs the matrix), a x2 pre-processor (bitwise), and for EVERY segment "
+        "0..max a set of basic views (0, 1, V/4, V/2, 2 random) x {full range, random axial+tangential sub-range (5-argument overload), "
+        "axial sub-range} + the 02c0a3d12 class + pre-filled viewgrams, with tolerance 1e-4 max(viewgram max, 0.05 max(A|x|)); bins whose "
+        "LOR end point lies within 2e-3 voxel of a voxel boundary (or that only touch a corner of the square FOV) not compared (count in "
+        "harness_counts). distinct = distinct op lines.",
         extra=dict(harness_counts=counts, harness_notes=notes[:8]))
     chk.assumptions += [
         "float rounding is bounded, not modelled: comparisons use the forward error bound 4(n+1)2^-24 sum|terms|",
         "matrix rows, symmetry tables and the storage layouts are data for the model (rows are C03's subject); "
         "the on-the-fly Siddon projector is compared on the implementation only (not modelled)",
-        "on-the-fly comparison only where it sets up: cylindrical, non-TOF, even number of views, no view mashing (others counted as skipped)",
+        "on-the-fly comparison only where it sets up: cylindrical, non-TOF, even number of views, no view mashing (others counted as skipped / refused)",
         "rows computed with symmetries vs without symmetries are only counted (C03's subject; boundary cases differ legitimately)",
-        "OpenMP off, no pre/post data processors",
+        "OpenMP off; data processors are the harness' own exact-arithmetic ones (what a STIR filter computes is C19's subject); "
+        "smaller ProjData keep the views and TOF bins of the set-up geometry and are trimmed symmetrically in +-segment "
+        "(ProjDataInfo::operator>= admits nothing else for views/TOF; asymmetric segment ranges are not exercised)",
+        "Presmoothing/Postsmoothing projectors do not use the image passed in / return zeros in the unrepaired tree: reported as known "
+        "candidates, no differential for them until build/fixes/C04-3.diff is committed",
     ]
     if audit:
         vlib.proof_coverage(chk, audit, "cd lean && lake build StirVerif stirdriver && lake env lean ../build/out/Audit_C04.lean")
